@@ -840,7 +840,7 @@ class Forest:
 
     def load_stmt(self):
         p = self.p
-        q = p.call(Cls("MySQLQuery"), "load", "/tmp/f.csv")
+        q = p.call(Cls("MySQLQuery"), "load", self.rnd.choice(["/tmp/f.csv", "~/data/f.csv", "~root/f.csv", "$HOME/f.csv", "rel/f.csv", "C:\\data\\f.csv", "it's.csv"]))
         self.note(q, "MySQLLoadQueryBuilder", "load")
         b = self.put(q, "load")
         ref = p.call(b.ref, "into", self.table().ref if self.rnd.random() < 0.5 else "t9")
